@@ -1,2 +1,25 @@
+//! ksim-db: simulation engines that link the whole (shadow) kolibrie crate: dbsim (C02 C03 C04 C13 C15 C17), rspsim (C09 C10 C11).
 kolibrie_verif_rt::interpose!();
-fn main() { println!("stub"); }
+mod store;
+mod dict;
+use kolibrie_verif_rt::harness::{self, Tier};
+
+fn usage() -> ! { eprintln!("usage: ksim-db <ID> <quick|thorough> | replay <file> | one <ID> <run_index> [tier]"); std::process::exit(2) }
+fn tier(s: &str) -> Tier { match s { "quick" => Tier::Quick, "thorough" => Tier::Thorough, _ => usage() } }
+macro_rules! dispatch {
+    ($id:expr, $f:ident $(, $a:expr)*) => { match $id { "C04" => harness::$f(store::C04 $(, $a)*), "C15" => harness::$f(dict::C15 $(, $a)*), _ => usage() } };
+}
+fn main() {
+    let args: Vec<String> = std::env::args().collect();
+    if args.len() < 3 { usage(); }
+    match args[1].as_str() {
+        "replay" | "replay-child" => {
+            let txt = std::fs::read_to_string(&args[2]).unwrap_or_else(|e| { eprintln!("cannot read {}: {}", args[2], e); std::process::exit(2) });
+            let v: serde_json::Value = serde_json::from_str(&txt).unwrap_or_else(|e| { eprintln!("bad replay file: {}", e); std::process::exit(2) });
+            let id = v["property"].as_str().unwrap_or("").to_string();
+            dispatch!(id.as_str(), replay_file, &args[2])
+        }
+        "one" => { if args.len() < 4 { usage(); } let t = if args.len() > 4 { tier(&args[4]) } else { Tier::Quick }; dispatch!(args[2].as_str(), run_one, args[3].parse().unwrap(), t) }
+        id => { let t = tier(&args[2]); dispatch!(id, run_check, t) }
+    }
+}
